@@ -257,3 +257,52 @@ func corruptBytes(rng *rand.Rand, b []byte) []byte {
 	}
 	return out
 }
+
+// declaresHugeLength scans the TLV headers the way the reader meets them and reports a
+// primitive whose declared length is far beyond the bytes present. asn1-ber allocates the
+// declared length before reading (up to 2 GiB), which only costs the harness time; such
+// frames are dropped from the generated stream (the reader model rejects them identically).
+func declaresHugeLength(b []byte) bool {
+	i := 0
+	for i < len(b) {
+		id := b[i]
+		i++
+		if id&0x1f == 0x1f {
+			for i < len(b) && b[i]&0x80 != 0 {
+				i++
+			}
+			i++
+		}
+		if i >= len(b) {
+			return false
+		}
+		l := int(b[i])
+		i++
+		n := 0
+		if l == 0x80 {
+			continue
+		} else if l&0x80 == 0 {
+			n = l
+		} else {
+			k := l & 0x7f
+			if k > 8 || i+k > len(b) {
+				return false
+			}
+			for j := 0; j < k; j++ {
+				if n > 1<<40 {
+					return true
+				}
+				n = n<<8 | int(b[i+j])
+			}
+			i += k
+		}
+		if id&0x20 != 0 {
+			continue // constructed: descend
+		}
+		if n > len(b)+(1<<20) {
+			return true
+		}
+		i += n
+	}
+	return false
+}
